@@ -1342,9 +1342,13 @@ func (interp *Interpreter) cfg(root *node, sc *scope, importPath, pkgName string
 					n.gen = nop
 					n.findex = notInFrame
 					n.typ = c0.typ
-					if c, ok := c1.rval.Interface().(constant.Value); ok {
-						i, _ := constant.Int64Val(constant.ToInt(c))
-						n.rval = reflect.ValueOf(i).Convert(c0.typ.rtype)
+					if _, ok := c1.rval.Interface().(constant.Value); ok {
+						// The representability of the constant in the type is checked above.
+						if n.rval, err = check.convertConst(c1.rval, c0.typ.TypeOf()); err != nil {
+							err = n.cfgErrorf("cannot convert expression of type %s to type %s", c1.typ.id(), c0.typ.id())
+							break
+						}
+						n.rval = n.rval.Convert(c0.typ.TypeOf())
 					} else {
 						n.rval = c1.rval.Convert(c0.typ.rtype)
 					}
